@@ -145,6 +145,14 @@ func ruleIdxUnits(c *Ctx) {
 								}
 							}
 						}
+						// (the offset kept in a local: offset := pr.indexOffset)
+						if po, ok := exprPoly(info, sub.Y, defs, nil, 0); ok && !guarded {
+							for _, gf := range guardFacts(c.P, pk, parents, ix) {
+								if gf.says(info, pa, po, token.GEQ) {
+									guarded = true
+								}
+							}
+						}
 					}
 				}
 				if !guarded {
@@ -761,12 +769,25 @@ func rulePruneTogether(c *Ctx) {
 				return ok && inBody && be.Op == token.NEQ && isRecvField(info, be.X, sinkRecv, "sink")
 			})
 			// or known from what holds on the way to the call: an enclosing branch, an earlier `if sink == nil { leave }`
+			// (the sink possibly read into a local first: sink := pr.sink)
+			sdefs := singleDefs(info, sinkFd.Body)
+			isSink := func(e ast.Expr) bool {
+				if isRecvField(info, e, sinkRecv, "sink") {
+					return true
+				}
+				if id, ok := ast.Unparen(e).(*ast.Ident); ok {
+					if d, ok := sdefs[info.ObjectOf(id)]; ok && d.n == 1 && d.rhs != nil && isRecvField(info, d.rhs, sinkRecv, "sink") {
+						return true
+					}
+				}
+				return false
+			}
 			for _, pf := range pathFactsAt(sparents, sinkCall) {
 				x, y := pf.be.X, pf.be.Y
 				if isNilExpr(info, x) {
 					x, y = y, x
 				}
-				if !isNilExpr(info, y) || !isRecvField(info, x, sinkRecv, "sink") {
+				if !isNilExpr(info, y) || !isSink(x) {
 					continue
 				}
 				if (pf.be.Op == token.NEQ && !pf.neg) || (pf.be.Op == token.EQL && pf.neg) {
